@@ -53,6 +53,7 @@ PLAN = {
              "static literal, SeqArray, Kmer on usize/u64/u128, &str); distinct event lines with non-empty operands",
     ),
     "C03": dict(
+        tlaps=dict(quick=["SliceLaws"]),
         traces=[("sweep_c03", (1, 2)), ("long_c03", (1, 2)), ("c03", (2, 12)), ("giant_c03", (None, 1))],
         codecs={"giant_c03": ["iupac", "miupac"]},
         seeds=dict(quick=1, thorough=6), seeded={"giant_c03": False},
@@ -89,6 +90,7 @@ PLAN = {
              "histories of depth <= 3 replayed",
     ),
     "C07": dict(
+        tlaps=dict(quick=["TransformLaws"]),
         gen=dict(quick=[("Gen_C07", "Gen_C07.cfg"), SYS(25)], thorough=[("Gen_C07", "Gen_C07_T.cfg"), SYS(400)]),
         traces=[("sweep_c07", (1, 2)), ("long_c07", (1, 2)), ("c07", (1, None)), ("c07all", (None, 1)), ("giant_c07", (None, 1))],
         codecs={"giant_c07": ["iupac", "miupac"]},
@@ -115,6 +117,7 @@ PLAN = {
              "on boundary patterns for every K x storage; exhaustive over all k-mers for small K",
     ),
     "C10": dict(
+        tlaps=dict(thorough=["ColexNumeric"]),
         gen=dict(quick=[SYS(25)], thorough=[SYS(400)]),
         traces=[("sweep_c10", (1, 2)), ("long_c10", (1, 2)), ("c10", (1, None)), ("c10all", (None, 2))],
         codecs={"sweep_c10": ORD, "long_c10": ORD, "c10": ORD, "c10all": ORD},
@@ -209,6 +212,7 @@ PLAN = {
              "plus random long inputs",
     ),
     "C20": dict(
+        tlaps=dict(quick=["TransformLaws"]),
         gen=dict(quick=[("Gen_C07", "Gen_C20.cfg")]),
         traces=[("sweep_c20", (1, 2)), ("long_c20", (1, 2)), ("c20", (1, None)), ("c20all", (None, 1))],
         codecs={"sweep_c20": ["mdna", "miupac"], "long_c20": ["mdna", "miupac"], "c20": ["mdna", "miupac"], "c20all": ["mdna", "miupac"]},
